@@ -249,8 +249,9 @@ def main():
                         fem.mesh.CubeArbitraryOrderHexahedron(b=(2, 1, 1), order=order)
                     region = fem.RegionLagrange(mesh, order=order, dim=dim)
                     out.write(reproduce_record(rid, region, mesh, dim, deg, 1, np.random.RandomState(order * 10 + dim), False, tol=64))
-    for kind, cls, base in (("quad", fem.RegionConstantQuad, fem.RegionQuad), ("hexahedron", fem.RegionConstantHexahedron, fem.RegionHexahedron)):
-        rid = "dual-" + cls.__name__
+    for kind, cls, base in (("quad", fem.RegionConstantQuad, fem.RegionQuad), ("hexahedron", fem.RegionConstantHexahedron, fem.RegionHexahedron),
+                            ("quad8", fem.RegionConstantQuad, fem.RegionQuadraticQuad), ("hexahedron20", fem.RegionConstantHexahedron, fem.RegionQuadraticHexahedron)):
+        rid = "dual-" + base.__name__
         if out.want(rid):
             mesh = lattice_mesh(kind, 3, "perturbed", rng)
             region = base(mesh)
@@ -282,9 +283,16 @@ def main():
                        "xq": [q(p, S) for p in xq.reshape(-1, 2)]})
     # fast paths and copies
     for cls, mk, n in ((fem.RegionQuad, fem.Rectangle, (4, 3)), (fem.RegionHexahedron, fem.Cube, (3, 2, 4))):
-        rid = "uniform-" + cls.__name__
-        if out.want(rid):
+        for affine in (False, True):
+          rid = "uniform-" + cls.__name__ + ("-affine" if affine else "")
+          if out.want(rid):
             mesh = mk(n=n)
+            if affine:        # congruent parallelepiped cells (rational rotation and shear of the grid) are still a uniform grid
+                d = mesh.points.shape[1]
+                Q = np.array([[3, -4], [4, 3]]) / 5.0 if d == 2 else np.array([[2, -1, 2], [2, 2, -1], [-1, 2, 2]]) / 3.0
+                Sh = np.eye(d)
+                Sh[0, 1] = 0.25
+                mesh = fem.Mesh(mesh.points @ (Q @ Sh).T, mesh.cells, mesh.cell_type)
             rg, ru = cls(mesh), cls(mesh, uniform=True)
             bc = lambda x: np.broadcast_to(x, x.shape[:-1] + (mesh.ncells,))  # noqa: E731
             out.write({"id": rid, "kind": "uniform", "nt": True, "a": q(rg.dV, S) + q(rg.dhdX, S), "b": q(bc(ru.dV), S) + q(bc(ru.dhdX), S)})
